@@ -34,6 +34,7 @@ pub enum Sym {
     WvdGap,
     WvdHalfGap,
     WvdBHalf,
+    WvdBigCts,
     WvdHuge,
     WaEqual,
     WaPlus,
@@ -81,6 +82,7 @@ pub const FULL: &[Sym] = &[
     Sym::WvdGap,
     Sym::WvdHalfGap,
     Sym::WvdBHalf,
+    Sym::WvdBigCts,
     Sym::WaHalfGap,
     Sym::WvdHuge,
     Sym::WaMinus,
@@ -112,6 +114,7 @@ pub const CORE: &[Sym] = &[
     Sym::WaBadSync,
     Sym::WvdGap,
     Sym::WvdHalfGap,
+    Sym::WvdBigCts,
     Sym::EvKey,
 ];
 
@@ -278,6 +281,13 @@ pub fn concretize(sym: Sym, step: usize, m: &Contract, fx: &Fixtures) -> Op {
             let (d, k) = ordinary(m);
             let t = last_d.unwrap_or(0.0) + (2147483648.0 + 3000.0) / 90000.0;
             wvd(t, t, d, k)
+        }
+        Sym::WvdBigCts => {
+            // valid decode time (two frames on, so the interval differs from the previous one)
+            // but a composition offset that does not fit the signed 32-bit field
+            let (d, k) = ordinary(m);
+            let t = last_d.map(|x| x + 2.0 * FRAME).unwrap_or(next);
+            wvd(t + (2147483648.0 + 9000.0) / 90000.0, t, d, k)
         }
         Sym::WvdBHalf => {
             // half a frame after the last decode time, presented at its decode time: makes
